@@ -6,6 +6,7 @@
    consistent with the tree, all request offsets.  Chains are written tip first:
    `anc t b = [b, parent b, …, genesis]`; the ascending path is its reverse. -/
 import LdkModel.Proofs.ChainSync
+import LdkModel.Proofs.ChainSyncErrKind
 namespace Ldk.C20
 open Ldk Ldk.ChainSync
 
@@ -1343,5 +1344,87 @@ theorem cache_window (c : Cache) (b f x : Hdr) :
   · simp [cacheBlocksDisconnected]
 
 example : (cacheBlockConnected [hd 1 0 0 2, hd 2 1 1 4] (hd 9 8 1009 9)).map (·.hash) = [9, 2] := by decide
+
+/-! ## round 6: the BlockSourceErrorKind of a failed start-up sync -/
+
+/-- `init::synchronize_listeners` returns a TRANSIENT error (the kind that invites the caller to simply try again) only
+    if the block source itself answered a transient error to some request of this sync: everything the library refuses
+    on its own — a header / block `Validate` rejects, a header that does not build on its child, "header not found",
+    "genesis block reached", a locator with more previous_blocks than its height, a locator none of whose blocks
+    resolves (the source errors of the resolution loop are SWALLOWED by `if let Ok(..)`) — comes back persistent.
+    The kinds of the three errors the library constructs itself are translated from the Rust text
+    (`genesisErrTransient`, `locatorHeightErrTransient`, `noLocatorErrTransient`): were one of them `transient`, this
+    proof would fail. All sources, all failure schedules, all locators, no bound. -/
+theorem init_transient_error_needs_transient_answer (s : Source) (ls : List Locator) (e : Err)
+    (h : (synchronizeListeners s ls).result = .error e) (ht : e.isTransient = true) :
+    ∃ r, s.fails r = true ∧ s.transient r = true := by
+  unfold synchronizeListeners at h
+  cases hb : s.getBestBlock 0 with
+  | error e0 =>
+    rw [hb] at h; simp only at h; cases h
+    obtain ⟨hf, rfl⟩ := getBestBlock_error_cases s 0 _ hb
+    exact ⟨_, hf, s.err_isTransient _ ht⟩
+  | ok bh =>
+    rw [hb] at h; simp only at h
+    cases hh : s.getHeader 1 bh with
+    | error e1 => rw [hh] at h; simp only at h; cases h; exact getHeader_transient s _ _ _ hh ht
+    | ok best =>
+      rw [hh] at h; simp only at h
+      cases hok : (phase1 s best ls [] 2 []).ok with
+      | false =>
+        rw [hok] at h; simp only [Bool.not_false, if_true] at h
+        cases h
+        obtain ⟨e', he', ht'⟩ := getD_transient ht
+        exact phase1_transient s best ls [] 2 [] e' he' ht'
+      | true =>
+        rw [hok] at h; simp only [Bool.not_true, Bool.false_eq_true, if_false] at h
+        generalize phase2 s MAX_BLOCKS_AT_ONCE (batchOrder (phase1 s best ls [] 2 []).most).length
+          (batchOrder (phase1 s best ls [] 2 []).most) (phase1 s best ls [] 2 []).cache (phase1 s best ls [] 2 []).req = p2 at h
+        obtain ⟨ok, c, r, delivered⟩ := p2
+        simp only at h
+        cases ok with
+        | true => simp at h
+        | false =>
+          simp only [Bool.false_eq_true, if_false] at h
+          cases h
+          obtain ⟨e', he', ht'⟩ := getD_transient ht
+          exact phase2Err_transient s _ _ _ _ e' he' ht'
+
+/-- the example source whose request `k` fails, every failure being a TRANSIENT source error -/
+def exTr (k : Nat) : Source := { exSrc 6 [k] with transient := fun _ => true }
+
+/-- non-vacuity: a transient answer to get_best_block (request 0), to the best header (1), to a previous-header look-up of
+    the difference walk (3) and to a block fetch of the batch (8) each come back transient; a persistent answer at the same
+    requests, an unknown locator and an overlong locator come back persistent — and a TRANSIENT answer to the locator
+    look-up (request 2) is swallowed: the sync fails with the persistent "could not resolve any block from BlockLocator" -/
+example : (synchronizeListeners (exTr 0) [⟨3, 2, []⟩]).result = .error .transient ∧
+    (synchronizeListeners (exTr 1) [⟨3, 2, []⟩]).result = .error .transient ∧
+    (synchronizeListeners (exTr 3) [⟨3, 2, []⟩]).result = .error .transient ∧
+    (synchronizeListeners (exTr 8) [⟨3, 2, []⟩]).result = .error .transient ∧
+    (synchronizeListeners (exSrc 6 [8]) [⟨3, 2, []⟩]).result = .error .source ∧
+    (synchronizeListeners (exTr 2) [⟨3, 2, []⟩]).result = .error .noLocator ∧
+    (synchronizeListeners (exSrc 6 []) [⟨3, 2, [some 2, some 1, some 1]⟩]).result.toOption.isSome = true ∧
+    (synchronizeListeners (exSrc 6 [2, 3, 4]) [⟨3, 2, [some 2, some 1, some 1]⟩]).result = .error .locatorHeight :=
+  ⟨rfl, rfl, rfl, rfl, rfl, rfl, rfl, rfl⟩
+
+/-- WHICH error a failed batch loop reports: `phase2` (the model of the second loop of synchronize_listeners) fails exactly
+    when `phase2Err` names an error; a batch (all of whose fetches are issued before any result is looked at) fails
+    exactly when one of its fetches does, and the error `block_res?` returns is that of the FIRST failing fetch in fetch
+    order (oldest block first): the fetch at position `fetchPrefix` = number of leading successful fetches — also when a
+    later fetch of the same batch failed with another kind. -/
+theorem init_batch_failure_reports_first_failed_fetch (s : Source) (k n : Nat) (asc : List Hdr) (c : Cache) (req : Nat) :
+    ((phase2 s k n asc c req).1 = false ↔ (phase2Err s k n asc req).isSome = true) ∧
+    (∀ bs r, (fetchAll s bs r).1 = false ↔ (firstFetchErr s bs r).isSome = true) ∧
+    (∀ bs r e, firstFetchErr s bs r = some e →
+      ∃ b, bs[fetchPrefix s r bs]? = some b ∧ s.getBlock (r + fetchPrefix s r bs) b = .error e) := by
+  refine ⟨?_, ?_, firstFetchErr_is_first s⟩
+  · rw [phase2_fails_iff s k n asc c req]; cases (phase2Err s k n asc req).isSome <;> simp
+  · intro bs r; rw [fetchAll_fails_iff s bs r]; cases (firstFetchErr s bs r).isSome <;> simp
+
+/-- non-vacuity: with block fetches 8 (persistent) and 7 (transient) of one batch failing, the transient one — the older
+    block, fetched first — is reported -/
+example : (synchronizeListeners { exSrc 6 [7, 8] with transient := fun r => Req.idx r == 7 } [⟨1, 0, []⟩]).result = .error .transient ∧
+    (synchronizeListeners { exSrc 6 [7, 8] with transient := fun r => Req.idx r == 8 } [⟨1, 0, []⟩]).result = .error .source :=
+  ⟨rfl, rfl⟩
 
 end Ldk.C20
